@@ -535,6 +535,9 @@ def run_impl(case):
         mk = mk_v1
     else:
         rig = apphelp.AppRig(fe).__enter__()
+        # Interest lifetimes of 2^32 ms take the clock to 10^7 s, where the loop's default resolution (1 ns) is below
+        # one ulp and a timer due exactly now would never be run
+        rig.loop._clock_resolution = 1e-6
         mk = mk_v2 if fe == 'v2' else mk_v1
         if fe == 'v1':
             # what main_loop() sets up before any route can be registered
